@@ -95,6 +95,10 @@ pub async fn run_op2(ctx: &Ctx, op: AOp, info: &Rc<TaskInfo>, handle: Handle) {
                 });
                 *holder.borrow_mut() = Some(ti);
                 info.dyn_must.replace(Some(claimed));
+                let mut pending = pending;
+                if op.d % 2 == 1 {
+                    blocked(info, "PendingSender::wait_established", false, pending.wait_established()).await;
+                }
                 let r = blocked(info, "PendingSender::establish", false, pending.establish()).await;
                 info.dyn_must.replace(None);
                 match r {
@@ -127,6 +131,10 @@ pub async fn run_op2(ctx: &Ctx, op: AOp, info: &Rc<TaskInfo>, handle: Handle) {
                 });
                 *holder.borrow_mut() = Some(ti);
                 info.dyn_must.replace(Some(claimed));
+                let mut pending = pending;
+                if op.d % 2 == 1 {
+                    blocked(info, "PendingReceiver::wait_established", false, pending.wait_established()).await;
+                }
                 let r = blocked(info, "PendingReceiver::establish", false, pending.establish()).await;
                 info.dyn_must.replace(None);
                 match r {
@@ -510,6 +518,109 @@ pub async fn run_op2(ctx: &Ctx, op: AOp, info: &Rc<TaskInfo>, handle: Handle) {
                 }
             });
             *holder.borrow_mut() = Some(ti);
+        }
+
+        AKind::EventWaiter => {
+            let taken = {
+                let mut res = ctx.res.borrow_mut();
+                let live: Vec<usize> = (0..res.proxies.len()).filter(|i| res.proxies[*i].is_some()).collect();
+                if live.is_empty() {
+                    None
+                } else {
+                    res.proxies[live[op.a as usize % live.len()]].take()
+                }
+            };
+            if let Some(mut p) = taken {
+                let c2 = ctx.clone();
+                let holder: Rc<RefCell<Option<Rc<TaskInfo>>>> = Rc::new(RefCell::new(None));
+                let h2 = holder.clone();
+                let n = 1 + op.b % 4;
+                let ti = ctx.spawn(format!("client{}-event-waiter", ctx.client), false, async move {
+                    let info = h2.borrow().clone().unwrap();
+                    for _ in 0..n {
+                        match blocked(&info, "Proxy::next_event", false, p.next_event()).await {
+                            Some(ev) => {
+                                c2.probe("event-awaited");
+                                let ok = matches!(ev.deserialize::<Vec<u64>>(), Ok(v) if v.len() == 2 && v[1] == ev.id() as u64);
+                                if !ok || ev.service() != p.id() {
+                                    c2.log.borrow_mut().violate(
+                                        "event.corrupted",
+                                        &[crate::model::Prop::C06, crate::model::Prop::C04],
+                                        format!("client{}: awaited event cannot be attributed", c2.client),
+                                    );
+                                }
+                            }
+                            None => break,
+                        }
+                    }
+                    c2.res.borrow_mut().proxies.push(Some(p));
+                });
+                *holder.borrow_mut() = Some(ti);
+            }
+        }
+        AKind::ListenerWaiter => {
+            let taken = {
+                let mut res = ctx.res.borrow_mut();
+                let live: Vec<usize> = (0..res.listeners.len()).filter(|i| res.listeners[*i].is_some()).collect();
+                if live.is_empty() {
+                    None
+                } else {
+                    res.listeners[live[op.a as usize % live.len()]].take()
+                }
+            };
+            if let Some(mut l) = taken {
+                let c2 = ctx.clone();
+                let holder: Rc<RefCell<Option<Rc<TaskInfo>>>> = Rc::new(RefCell::new(None));
+                let h2 = holder.clone();
+                let n = 1 + op.b % 4;
+                let ti = ctx.spawn(format!("client{}-listener-waiter", ctx.client), false, async move {
+                    let info = h2.borrow().clone().unwrap();
+                    for _ in 0..n {
+                        match blocked(&info, "BusListener::next_event", false, l.next_event()).await {
+                            Some(_) => c2.probe("bus-event-awaited"),
+                            None => break,
+                        }
+                    }
+                    c2.res.borrow_mut().listeners.push(Some(l));
+                });
+                *holder.borrow_mut() = Some(ti);
+            }
+        }
+        AKind::DiscWaiter => {
+            let taken = {
+                let mut res = ctx.res.borrow_mut();
+                let live: Vec<usize> = (0..res.discoverers.len()).filter(|i| res.discoverers[*i].is_some()).collect();
+                if live.is_empty() {
+                    None
+                } else {
+                    res.discoverers[live[op.a as usize % live.len()]].take()
+                }
+            };
+            if let Some((mut d, spec, mut evs)) = taken {
+                let c2 = ctx.clone();
+                let holder: Rc<RefCell<Option<Rc<TaskInfo>>>> = Rc::new(RefCell::new(None));
+                let h2 = holder.clone();
+                let n = 1 + op.b % 3;
+                let ti = ctx.spawn(format!("client{}-discoverer-waiter", ctx.client), false, async move {
+                    let info = h2.borrow().clone().unwrap();
+                    for _ in 0..n {
+                        match blocked(&info, "Discoverer::next_event", false, d.next_event()).await {
+                            Some(ev) => {
+                                c2.probe("discoverer-event-awaited");
+                                evs.push(DiscEvRec {
+                                    key: ev.key(),
+                                    created: ev.kind() == DiscovererEventKind::Created,
+                                    object: ev.object_id(),
+                                    restart: false,
+                                });
+                            }
+                            None => break,
+                        }
+                    }
+                    c2.res.borrow_mut().discoverers.push(Some((d, spec, evs)));
+                });
+                *holder.borrow_mut() = Some(ti);
+            }
         }
 
         AKind::ScopeCreate => {
